@@ -1,0 +1,101 @@
+//go:build verif
+
+// Contracts for package dstutil, read by the verification machinery in /verif (govc).
+// Comment-only: this file adds no declarations and is excluded from ordinary builds.
+
+package dstutil
+
+// ---------------------------------------------------------------------------------------------
+// Cursor edits (rewrite.go)
+//
+// L = the list stored in field c.name of c.parent, seen through reflect (rlen = its length,
+// rat(k) = its k-th element). i = c.iter.index is the position of the current node, c.iter.step
+// the distance to the next node Apply will visit. The elements from i+step on are the original
+// nodes not yet visited; `unvisited_kept` says an edit leaves exactly them in place, so that no
+// original is skipped or visited twice and no inserted node is visited.
+// The same contracts are discharged on golang.org/x/tools/go/ast/astutil's Cursor (thorough tier).
+
+//@ pure func inList(c *Cursor) bool { c.iter != nil && 0 <= c.iter.index && c.iter.index < rlen(c.parent, c.name) && typeof(c.node) != type(*dst.File) }
+
+//@ func (c *Cursor) Delete
+//@ requires in_list: inList(c)
+//@ let i := c.iter.index
+//@ let n := rlen(c.parent, c.name)
+//@ ensures shorter: rlen(c.parent, c.name) == n - 1
+//@ ensures before_kept: forall k int :: 0 <= k && k < i ==> rat(c.parent, c.name, k) == old(rat(c.parent, c.name, k))
+//@ ensures after_shifted: forall k int :: i <= k && k < n - 1 ==> rat(c.parent, c.name, k) == old(rat(c.parent, c.name, k + 1))
+//@ ensures iterator: c.iter.step == old(c.iter.step) - 1 && c.iter.index == i
+//@ ensures unvisited_kept: rlen(c.parent, c.name) - (c.iter.index + c.iter.step) == n - (i + old(c.iter.step)) && (forall k int :: 0 <= k && k < n - (i + old(c.iter.step)) ==> rat(c.parent, c.name, c.iter.index + c.iter.step + k) == old(rat(c.parent, c.name, i + c.iter.step + k)))
+
+//@ func (c *Cursor) InsertAfter
+//@ requires in_list: inList(c)
+//@ let i := c.iter.index
+//@ let m := rlen(c.parent, c.name)
+//@ ensures longer: rlen(c.parent, c.name) == m + 1
+//@ ensures upto_current_kept: forall k int :: 0 <= k && k <= i ==> rat(c.parent, c.name, k) == old(rat(c.parent, c.name, k))
+//@ ensures inserted: rat(c.parent, c.name, i + 1) == n
+//@ ensures rest_shifted: forall k int :: i + 1 < k && k <= m ==> rat(c.parent, c.name, k) == old(rat(c.parent, c.name, k - 1))
+//@ ensures iterator: c.iter.step == old(c.iter.step) + 1 && c.iter.index == i
+//@ ensures unvisited_kept: rlen(c.parent, c.name) - (c.iter.index + c.iter.step) == m - (i + old(c.iter.step)) && (forall k int :: 0 <= k && k < m - (i + old(c.iter.step)) ==> rat(c.parent, c.name, c.iter.index + c.iter.step + k) == old(rat(c.parent, c.name, i + c.iter.step + k)))
+
+//@ func (c *Cursor) InsertBefore
+//@ requires in_list: inList(c)
+//@ let i := c.iter.index
+//@ let m := rlen(c.parent, c.name)
+//@ ensures longer: rlen(c.parent, c.name) == m + 1
+//@ ensures before_kept: forall k int :: 0 <= k && k < i ==> rat(c.parent, c.name, k) == old(rat(c.parent, c.name, k))
+//@ ensures inserted: rat(c.parent, c.name, i) == n
+//@ ensures rest_shifted: forall k int :: i < k && k <= m ==> rat(c.parent, c.name, k) == old(rat(c.parent, c.name, k - 1))
+//@ ensures iterator: c.iter.step == old(c.iter.step) && c.iter.index == i + 1
+//@ ensures unvisited_kept: rlen(c.parent, c.name) - (c.iter.index + c.iter.step) == m - (i + old(c.iter.step)) && (forall k int :: 0 <= k && k < m - (i + old(c.iter.step)) ==> rat(c.parent, c.name, c.iter.index + c.iter.step + k) == old(rat(c.parent, c.name, i + c.iter.step + k)))
+
+//@ func (c *Cursor) Replace
+//@ requires not_file: typeof(c.node) != type(*dst.File) && typeof(c.parent) != 0 && ref(c.parent) != 0
+//@ requires in_list_or_field: c.iter == nil || (0 <= c.iter.index && c.iter.index < rlen(c.parent, c.name))
+//@ let m := rlen(c.parent, c.name)
+//@ ensures element_replaced: c.iter != nil ==> rlen(c.parent, c.name) == m && rat(c.parent, c.name, c.iter.index) == n && (forall k int :: 0 <= k && k < m && k != c.iter.index ==> rat(c.parent, c.name, k) == old(rat(c.parent, c.name, k)))
+//@ ensures field_replaced: c.iter == nil ==> rval(c.parent, c.name) == n
+//@ ensures iterator: c.iter != nil ==> c.iter.step == old(c.iter.step) && c.iter.index == old(c.iter.index)
+
+//@ func (c *Cursor) Index
+//@ modifies nothing
+//@ ensures is_iterator_index: c.iter != nil ? result == c.iter.index : result == 0 - 1
+
+//@ func (c *Cursor) Node
+//@ modifies nothing
+//@ ensures is_node: result == c.node
+
+//@ func (c *Cursor) Parent
+//@ modifies nothing
+//@ ensures is_parent: result == c.parent
+
+//@ func (c *Cursor) Name
+//@ modifies nothing
+//@ ensures is_name: result == c.name
+
+// ---------------------------------------------------------------------------------------------
+// Traversal (rewrite.go)
+//
+// What a call of apply may do to the list it iterates is what the callbacks do through the cursor.
+// Assumed (callbacks are user code): they touch the traversed list only through Cursor methods,
+// each of which keeps the unvisited suffix in place (contracts above); by induction so does apply.
+
+//@ func (a *application) apply
+//@ trusted
+//@ modifies allbut(heap(application.pre); heap(application.post))
+//@ ensures unvisited_kept: iter != nil ==> 0 <= iter.index + iter.step && rlen(parent, name) - (iter.index + iter.step) == old(rlen(parent, name) - (iter.index + iter.step)) && (forall k int :: 0 <= k && k < rlen(parent, name) - (iter.index + iter.step) ==> rat(parent, name, iter.index + iter.step + k) == old(rat(parent, name, iter.index + iter.step + k)))
+
+//@ func (a *application) applyList
+//@ requires parent_not_nil: typeof(parent) != 0 && ref(parent) != 0
+//@ loop 1 invariant progress: a.iter.index >= 0
+
+// The user's callbacks: anything may change (they are assumed to edit the traversed list only through the cursor).
+//@ func callback.pre
+//@ trusted
+//@ attr params = c
+//@ modifies allbut(heap(application.pre); heap(application.post))
+
+//@ func callback.post
+//@ trusted
+//@ attr params = c
+//@ modifies allbut(heap(application.pre); heap(application.post))
